@@ -77,7 +77,7 @@ def load_findings():
 def match_finding(findings, prop, obl):
     """a finding suppresses exactly the obligations it names (function + obligation pattern)"""
     for f in findings:
-        if f['property'] != prop:
+        if f['property'] != prop and not (prop == 'C16' and obl.get('kind') in ('safe', 'call-pre')):
             continue
         if f.get('function') and f['function'] != obl['function']:
             continue
@@ -106,7 +106,24 @@ def main():
     from pyvc import props as propmod
     spec = propmod.PROPS[a.prop]
     tasks = []
+    c16 = None
+    if a.prop == 'C16':
+        # C16 = union of the exception-freedom obligations (safe:, and the call-site preconditions that establish the
+        # callees' safety) of every function under contract that is reachable from an event handler or an XML-RPC
+        from pyvc import callgraph
+        funcs, edges = callgraph.build(w.ct)
+        roots = callgraph.handler_roots(funcs)
+        reach = callgraph.reachable(edges, roots)
+        c16 = {'roots': sorted(roots), 'reachable': len(reach),
+               'under_contract': sorted(t for t, c in w.reg.contracts.items() if t in reach and not c.assumed),
+               'assumed': sorted(t for t, c in w.reg.contracts.items() if t in reach and c.assumed),
+               'unverified_remainder': sorted(q for q in reach if q not in w.reg.contracts)}
     for target, con in sorted(w.reg.contracts.items()):
+        if c16 is not None:
+            if target in c16['under_contract']:
+                for v in (con.variants or [None]):
+                    tasks.append((target, v, tier))
+            continue
         if a.prop in con.props and not con.assumed:
             for v in (con.variants or [None]):
                 tasks.append((target, v, tier))
@@ -123,6 +140,8 @@ def main():
     findings = load_findings()
     all_obls, errors = [], []
     for r in results:
+        if c16 is not None:
+            r['obligations'] = [o for o in r['obligations'] if o['kind'] in ('safe', 'vac', 'call-pre')]
         all_obls.extend(r['obligations'])
         if r['error']:
             errors.append((r['target'], r['variant'], r['error']))
@@ -213,6 +232,7 @@ def main():
         'bounded_standins': extra.get('bounded', []),
         'structural_checks': extra.get('structural', []),
         'known_findings_hit': sorted(seen_kf),
+        'handler_reachability': c16,
         'engine_errors': [f'{t}[{v}]: {e.splitlines()[0]}' for t, v, e in errors],
         'undecided_obligations': [o['name'] for o in undecided][:50],
         'evaluations': n_obl, 'distinct_nontrivial': len({(o['function'], o['name']) for o in all_obls if o['backend'] != 'trivial'}),
